@@ -72,18 +72,26 @@ GH2_X, GH2_W = np.polynomial.hermite_e.hermegauss(12)
 GH2_W = GH2_W / GH2_W.sum()
 
 
+FAR = [0.35]  # probability of the tiny-step variant (step sizes down to 2^-20, base time up to 1.8)
+
+
 def check_program(p, rng):
     """returns (fail dict or None, stats)"""
     method, sde_type, noise, gf = parse(p.name)
     n = int(round(2 * advertised_order(method, sde_type, noise, gf)))
     additive = noise == 'additive'
     t0, y0 = rng.uniform(0.0, 0.5), rng.uniform(-0.5, 0.5)
+    far = rng.random() < FAR[0]
+    if far:
+        t0 += rng.choice([0.0, 0.8, 1.3])
     F = jets_of(p.funcs['f'].poly, t0, y0)
     G = jets_of(p.funcs['g'].poly, t0, y0, time_only=additive)
     T, mean = reference(sde_type, additive, F, G)
     xi = rng.gauss(0, 1)
     zeta = 0.5 * xi + rng.gauss(0, 1) / math.sqrt(12)
-    hs = [2.0 ** -6, 2.0 ** -10, 2.0 ** -14]
+    # tiny-step variant: an h-independent perturbation of the evaluation TIMES (e.g. stage times rounded to float32, ~1e-7 at t = 1)
+    # is a defect that does not scale with h at all and only shows against very small h
+    hs = [2.0 ** -12, 2.0 ** -16, 2.0 ** -20] if far else [2.0 ** -6, 2.0 ** -10, 2.0 ** -14]
     q = []
     for h in hs:
         s = math.sqrt(h)
